@@ -1117,6 +1117,13 @@ def case_general(case, ctx, teneva, rng):
     else:
         lo = float(rng.uniform(-2, 0.5))
         hi = lo + float(rng.uniform(1, 3))
+    if name == 'mono' and rng.random() < 0.45:
+        # raw monomials on a one-sided / offset box: design matrices with
+        # condition numbers 1e3..1e5, far inside what the default cut-off
+        # rcond = 1e-6 of the least-squares fit keeps
+        lo = float(rng.choice([0., 1., 2., 0.5]))
+        hi = lo + float(rng.choice([1., 2.]))
+        ctx.event('general-offset-monomials')
     basis = make_basis(name, n, lo, hi)
     same = rng.random() < 0.4
     # distinct points: jittered Chebyshev-like or uniform nodes in [lo, hi]
@@ -1136,9 +1143,14 @@ def case_general(case, ctx, teneva, rng):
         ctx.skip('general', 'coincident-points')
         return
     cond = [float(np.linalg.cond(h)) for h in H]
-    if max(cond) > 1e3:
+    # (the routine's documented default rcond = 1e-6 discards directions
+    # below 1e-6 of the largest singular value: beyond cond ~ 1e6 the fit is
+    # not the interpolant by design; judged up to 1e5, a factor 10 inside)
+    if max(cond) > 1e5:
         ctx.skip('general', 'ill-conditioned-design-matrix')
         return
+    if max(cond) > 1e3:
+        ctx.event('general-cond-1e3..1e5')
     struct = 'cp' if rng.random() < .4 else 'tt'
     r = gen.rand_ranks(rng, d, 3)
     if struct == 'cp':
